@@ -20,7 +20,8 @@ from harness import common, tlc, trace
 from harness import constraints_lib as cl
 from harness import verify_session as vs
 
-FIELD_NAMES = ['f', 'naïve ☃', 'with "quote"', 'back\\slash', 'line sep', ' sp ', '1']
+FIELD_NAMES = ['f', 'naïve ☃', 'with "quote"', 'back\\slash', 'line sep', ' sp ', '1',
+               'cafe\u0301 prix', 'A\u030angstro\u0308m', '\uff21\uff22 full width']      # (decomposed / compatibility forms: a name is its code points)
 
 CONCRETE = {
     'int': [0, 7, -3, 2**53 + 1, 10**30],
@@ -125,7 +126,7 @@ def verdicts(df, src):
     return {f: {k: (None if x is None else bool(x)) for k, x in fv.items()} for f, fv in v.fields.items()}, v.passes, v.failures
 
 
-def cycle_check(chk, d, root, tag, rnd, sigbase, witness, cycles=2, df=None):
+def cycle_check(chk, d, root, tag, rnd, sigbase, witness, cycles=2, df=None, origin=None):
     """d: constraints dictionary.  Performs load -> write -> load(path) -> write ... and returns trace events."""
     from tdda.constraints.base import DatasetConstraints
     events = []
@@ -172,6 +173,21 @@ def cycle_check(chk, d, root, tag, rnd, sigbase, witness, cycles=2, df=None):
             base_verdicts = verdicts(df, json.loads(json.dumps(d)))
         except Exception as ex:
             base_verdicts = ('raised', type(ex).__name__)
+    if origin is not None:
+        # the set as it was made in memory (by discovery): ITS text is the text written, ITS verdicts are the verdicts
+        try:
+            prev_fields = fields_text(origin)
+        except Exception:
+            prev_fields = None
+        if df is not None and len(dc.fields) and base_verdicts is not None and base_verdicts[0] != 'raised':
+            try:
+                from tdda.constraints.pd.constraints import PandasConstraintVerifier, PandasVerification
+                with cl.quiet():
+                    v = PandasConstraintVerifier(df.copy()).verify(origin, VerificationClass=PandasVerification)
+                base_verdicts = ({f: {k: (None if x is None else bool(x)) for k, x in fv.items()} for f, fv in v.fields.items()},
+                                 v.passes, v.failures)
+            except Exception:
+                pass
     for c in range(cycles):
         try:
             text = dc.to_json()
@@ -185,6 +201,12 @@ def cycle_check(chk, d, root, tag, rnd, sigbase, witness, cycles=2, df=None):
         ev('Write', cycle=c, utf8=utf8, validjson=valid, notrail=notrail, nonfinite=nonfinite, sametext=same)
         if not same:
             events[-1]['texts'] = [prev_fields[:400], ftext[:400]]
+            try:
+                fa, fb = json.loads(prev_fields), json.loads(ftext)
+                events[-1]['differing_fields'] = sorted(f for f in set(fa) | set(fb) if fa.get(f) != fb.get(f))
+                events[-1]['against_origin'] = origin is not None and c == 0
+            except Exception:
+                pass
         prev_text, prev_fields = text, ftext
         # the same few file names are written again and again, by every case and every cycle: what a path held earlier
         # in this process must not matter
@@ -212,6 +234,13 @@ def cycle_check(chk, d, root, tag, rnd, sigbase, witness, cycles=2, df=None):
             if v_path != base_verdicts or v_dict != base_verdicts:
                 e['sameverdicts'] = False
                 e['verdicts'] = json.loads(json.dumps([base_verdicts, v_path, v_dict], default=str))
+                try:
+                    fa = base_verdicts[0]
+                    e['differing_fields'] = sorted(f for f in fa if any(isinstance(o, tuple) and isinstance(o[0], dict) and o[0].get(f) != fa[f]
+                                                                      for o in (v_path, v_dict)))
+                    e['against_origin'] = origin is not None
+                except Exception:
+                    pass
         dc = dc2
     return events
 
@@ -328,11 +357,11 @@ def run(chk):
                            'how': 'discover_df(rich frame).to_json() is not parseable (python json, which even accepts Infinity / NaN)'})
             continue
         w = {'tid': tid, 'kinds': kinds, 'dict': json.loads(json.dumps(d, default=str)), 'discovered': True}
-        events += cycle_check(chk, d, root, 'r%d' % tid, rnd, None, w, cycles=rnd.randint(2, 4), df=df)
+        events += cycle_check(chk, d, root, 'r%d' % tid, rnd, None, w, cycles=rnd.randint(2, 4), df=df, origin=cs)
         meta[tid] = w
         tid += 1
     # judge -----------------------------------------------------------------------------------------
-    clean = [{k: v for k, v in e.items() if k not in ('texts', 'verdicts', 'detail')} for e in events]
+    clean = [{k: v for k, v in e.items() if k not in ('texts', 'verdicts', 'detail', 'differing_fields', 'against_origin')} for e in events]
     res, rejected = trace.validate('Trace_TddaFile', 'Trace_TddaFile.cfg', clean, name='tdda_cycles', workers=4)
     if res.error and 'not fully consumed' in res.error:
         # a line that raised is judged but not stepped over: its successor states do not exist
@@ -358,6 +387,10 @@ def run(chk):
                 sig['error'] = e['raised'].split(':')[0]
             if clause == 'ValidJson' and e.get('nonfinite'):
                 sig['nonfinite'] = True
+            if e.get('against_origin') and clause in ('Fixpoint', 'SameVerdicts') and w.get('kinds'):
+                # the written set is the one discovery made in memory; which kinds of column differ after loading
+                sig['written_set'] = 'as discovered (in memory)'
+                sig['differing_kinds'] = ','.join(sorted(set(w['kinds'].get(f, '?') for f in e.get('differing_fields', [])))) or '?'
             if w.get('abstract'):
                 sig['classes'] = ','.join(sorted('%s=%s' % (x['k'], x['v']) for x in w['abstract'] if x['k'] in ('min', 'max', 'type')))
             chk.violation(sig, {'event': e, 'constraints': w.get('dict'), 'column_kinds': w.get('kinds'),
